@@ -100,6 +100,12 @@ func (r *RNN) Apply(inputs []tensor.Tensor) ([]tensor.Tensor, error) {
 	// Reshape the hidden tensor without the bidirectional dimension, as
 	// we do not support bidirectional RNN yet. This is the dimension at
 	// index 0.
+	// The initial state belongs to the caller: reshape a copy.
+	Ht, ok := Ht.Clone().(tensor.Tensor)
+	if !ok {
+		return nil, ops.ErrTypeAssert("tensor.Tensor", Ht)
+	}
+
 	if err = Ht.Reshape(Ht.Shape().Clone()[1:]...); err != nil {
 		return nil, err
 	}
